@@ -870,12 +870,15 @@ impl StorageEngine {
                         };
                         
                         let stop_idx = if stop < 0 {
-                            (len as isize + stop).max(0) as usize
+                            len as isize + stop
                         } else {
-                            stop as usize
+                            stop
                         };
                         
-                        if reverse {
+                        if stop_idx < 0 || start_idx >= len || start_idx > stop_idx as usize {
+                            Vec::new()
+                        } else if reverse {
+                            let stop_idx = stop_idx as usize;
                             let real_start = len.saturating_sub(1).saturating_sub(stop_idx.min(len.saturating_sub(1)));
                             let real_stop = len.saturating_sub(1).saturating_sub(start_idx.min(len.saturating_sub(1)));
                             
@@ -884,15 +887,11 @@ impl StorageEngine {
                             items.reverse();
                             items
                         } else {
-                            if start_idx >= len || start_idx > stop_idx {
-                                Vec::new()
-                            } else {
-                                let start_idx = start_idx.min(len - 1);
-                                let stop_idx = stop_idx.min(len - 1);
-                                
-                                let range = skiplist.range_by_rank(start_idx, stop_idx);
-                                range.items
-                            }
+                            let start_idx = start_idx.min(len - 1);
+                            let stop_idx = (stop_idx as usize).min(len - 1);
+                            
+                            let range = skiplist.range_by_rank(start_idx, stop_idx);
+                            range.items
                         }
                     }
                 }
